@@ -109,12 +109,13 @@ class pixcoord_len_index_iter:
 
 @contract(PIXCOORD + '.__len__', props=['C20'])
 class scalar_pixcoord_has_no_len_or_items:
-    cases = {'len': {'op': 'len'}, 'index': {'op': 'index'}, 'slice': {'op': 'slice'}}
+    """len, indexing, slicing and iteration of a scalar coordinate fail the way they do on its scalar x and y"""
+    cases = {'len': {'op': 'len'}, 'index': {'op': 'index'}, 'slice': {'op': 'slice'}, 'iter': {'op': 'iter'}}
 
     def setup(B, op='len'):
         return dict(self=pix(B, 'p'), op=op)
-    call = lambda self, op: len(self) if op == 'len' else (self[0] if op == 'index' else self[0:1])
-    raises = {'TypeError': lambda op: op == 'len', 'IndexError': lambda op: op != 'len'}
+    call = lambda self, op: len(self) if op == 'len' else (self[0] if op == 'index' else (self[0:1] if op == 'slice' else [p for p in self]))
+    raises = {'TypeError': lambda op: op == 'len' or op == 'iter', 'IndexError': lambda op: op == 'index' or op == 'slice'}
 
 
 @contract(PIXCOORD + '.__iter__', props=['C20'])
